@@ -35,18 +35,23 @@ def demo_cmd(src, wt):
     files = [f for f in os.listdir(src) if f.startswith("demo")]
     cmds = []
     for f in files:
-        if f.endswith(".rs"):
+        if f.endswith(".rs") and "fn main" in open(os.path.join(src, f)).read() and "#[test]" not in open(os.path.join(src, f)).read():
+            # a program: copy to examples/ and run it
+            name = "seeded_demo_%s" % re.sub(r"\W", "_", os.path.basename(src.rstrip("/")) + "_" + f[:-3])
+            os.makedirs(os.path.join(wt, "examples"), exist_ok=True)
+            shutil.copyfile(os.path.join(src, f), os.path.join(wt, "examples", name + ".rs"))
+            cmds.append(("cargo run --offline --release --example %s" % name, os.path.join(wt, "examples", name + ".rs")))
+        elif f.endswith(".rs"):
             # an integration test: copy to tests/<pid>_<m>_demo.rs
             name = "seeded_demo_%s" % re.sub(r"\W", "_", os.path.basename(src.rstrip("/")) + "_" + f[:-3])
             os.makedirs(os.path.join(wt, "tests"), exist_ok=True)
             shutil.copyfile(os.path.join(src, f), os.path.join(wt, "tests", name + ".rs"))
             cmds.append(("cargo test --offline --test %s" % name, os.path.join(wt, "tests", name + ".rs")))
         elif f.endswith(".sh"):
-            shutil.copyfile(os.path.join(src, f), os.path.join(wt, "seeded_" + f))
-            cmds.append(("bash seeded_%s" % f, os.path.join(wt, "seeded_" + f)))
+            # run in place (the script finds its companions next to itself), from the worktree root
+            cmds.append(("sh %s" % os.path.join(src, f), "/nonexistent"))
         elif f.endswith(".py"):
-            shutil.copyfile(os.path.join(src, f), os.path.join(wt, "seeded_" + f))
-            cmds.append(("python3 seeded_%s" % f, os.path.join(wt, "seeded_" + f)))
+            cmds.append(("python3 %s" % os.path.join(src, f), "/nonexistent"))
     return cmds
 
 
